@@ -16,7 +16,7 @@ package keeper
 //@ end
 
 //@ func msgServer.UpdateParams(goCtx, msg)
-//@   property C16
+//@   property C16, C04
 //@   returns resp, err
 //@   modifies prm
 //@   ensures authority: err == nil ==> msg.Authority == m.k.authority
